@@ -12,5 +12,5 @@ PY
 [ $? -eq 0 ] || exit 3
 git diff --stat | tail -1
 if [ "${MUT_BASELINE:-0}" = 1 ]; then /verif/bin/baseline.sh | tail -2; fi
-cd /verif && bin/check.sh $PROP quick | grep -E "^(VIOLATION|OK|HARNESS|KNOWN)" | head -${MUT_LINES:-4}
+cd /verif && bin/check.sh $PROP quick | grep -E "^(VIOLATION|OK|HARNESS)" | cut -c1-260 | head -${MUT_LINES:-4}
 cd /repo && git checkout -- . 
